@@ -70,6 +70,7 @@ structure Mid (s : St) (todo all : List Loc) : Prop where
          ∃ j, p.win[j]? = some (amSlot p.id r (p.base + j)) ∧ Loc.win k j ∈ todo
   u2 : ∀ (j : Nat) sl, s.dyn.slots[j]? = some sl → sl.fin = true → Loc.dyn j ∈ todo ∧ sl.req = none
   u3 : ∀ (j : Nat) sl, s.dyn.slots[j]? = some sl → sl.req = none → Loc.dyn j ∈ all
+  u4 : ∀ j, Loc.dyn j ∈ all → j < s.dyn.slots.length
   t1 : ∀ k j, Loc.win k j ∈ todo → ∃ p r, s.pools[k]? = some p ∧ r < p.n ∧
          p.win[j]? = some (amSlot p.id r (p.base + j)) ∧ p.act.getD r true = false
   t2 : ∀ j, Loc.dyn j ∈ todo → ∃ sl, s.dyn.slots[j]? = some sl ∧ sl.fin = true
@@ -82,8 +83,9 @@ def LiveNow (s : St) : Loc → Prop
   | .dyn j => ∃ sl, s.dyn.slots[j]? = some sl ∧ sl.req ≠ none
   | .out => False
 
-theorem Inv.toMid {s : St} (h : Inv s) (all : List Loc) : Mid s [] all := by
-  refine ⟨fun k p hk => (h.pools k p hk).inv, h.dyn.mid, h.ok, h.ledger, h.nodup, ?_, ?_, ?_, ?_, ?_, by simp⟩
+theorem Inv.toMid {s : St} (h : Inv s) (all : List Loc) (hall : ∀ j, Loc.dyn j ∈ all → j < s.dyn.slots.length) :
+    Mid s [] all := by
+  refine ⟨fun k p hk => (h.pools k p hk).inv, h.dyn.mid, h.ok, h.ledger, h.nodup, ?_, ?_, ?_, hall, ?_, ?_, by simp⟩
   · intro k p r hk hr ha
     have := (h.pools k p hk).active r hr
     rw [ha] at this; cases this
@@ -172,7 +174,7 @@ theorem Mid_complete_win {s : St} {todo all : List Loc} (h : Mid s todo all) (k 
   have e_sh : q.shape = p.shape := by rw [hq]; rfl
   have hqi : PInv q := by rw [← hqq]; exact PInv_complete hpi j
   have hkl := getElem?_lt hk
-  refine ⟨⟨?_, h.dyn, h.ok, h.ledger, h.nodup, ?_, ?_, h.u3, ?_, ?_, ?_⟩, ⟨map_shape_set _ _ _ _ hk e_sh, rfl, rfl, rfl⟩, ?_⟩
+  refine ⟨⟨?_, h.dyn, h.ok, h.ledger, h.nodup, ?_, ?_, h.u3, h.u4, ?_, ?_, ?_⟩, ⟨map_shape_set _ _ _ _ hk e_sh, rfl, rfl, rfl⟩, ?_⟩
   · intro k' p' hk'
     rcases getElem?_set_cases _ _ _ _ _ hk' with ⟨_, e, _⟩ | ⟨_, e⟩
     · rw [e]; exact hqi
@@ -244,7 +246,7 @@ theorem Mid_complete_dyn {s : St} {todo all : List Loc} (h : Mid s todo all) (j 
   obtain ⟨c1, c2, c3, c4⟩ := complete_slots hj
   have hjl := getElem?_lt hj
   have hfin : sl.finish.fin = true ∧ sl.finish.req = none := ⟨rfl, rfl⟩
-  refine ⟨⟨h.pools, g1, h.ok, ?_, h.nodup, ?_, ?_, ?_, ?_, ?_, ?_⟩, ⟨rfl, g4, g5, g6⟩, ?_⟩
+  refine ⟨⟨h.pools, g1, h.ok, ?_, h.nodup, ?_, ?_, ?_, fun j' hm => by show j' < (s.dyn.complete j).slots.length; rw [g3]; exact h.u4 j' hm, ?_, ?_, ?_⟩, ⟨rfl, g4, g5, g6⟩, ?_⟩
   · show ((s.dyn.complete j).refs ++ servedDyn s).Perm s.issued
     rw [g2]; exact h.ledger
   · intro k p r hk hr ha
@@ -296,7 +298,7 @@ theorem Mid.congr {s : St} {t1 t2 all : List Loc} (h : Mid s t1 all) (he : ∀ l
   ⟨h.pools, h.dyn, h.ok, h.ledger, h.nodup,
    fun k p r hk hr ha => by obtain ⟨j, hj, hm⟩ := h.u1 k p r hk hr ha; exact ⟨j, hj, (he _).mp hm⟩,
    fun j sl hj hf => by obtain ⟨hm, hr⟩ := h.u2 j sl hj hf; exact ⟨(he _).mp hm, hr⟩,
-   h.u3,
+   h.u3, h.u4,
    fun k j hm => h.t1 k j ((he _).mpr hm),
    fun j hm => h.t2 j ((he _).mpr hm),
    fun hm => h.t3 ((he _).mpr hm)⟩
@@ -374,7 +376,7 @@ theorem Mid_install {s : St} {todo all : List Loc} (h : Mid s todo all) (x : Dyn
            rw [hj0] at hj'
            simp at hj'
            right; rw [← hj']; simp [dynSlot])
-  refine ⟨⟨h.pools, g1, h.ok, ?_, ?_, h.u1, ?_, ?_, h.t1, ?_, h.t3⟩, ⟨rfl, f1, f2, f3⟩, rfl, rfl⟩
+  refine ⟨⟨h.pools, g1, h.ok, ?_, ?_, h.u1, ?_, ?_, ?_, h.t1, ?_, h.t3⟩, ⟨rfl, f1, f2, f3⟩, rfl, rfl⟩
   · show ((s.dyn.install x).refs ++ servedDyn s).Perm (s.issued ++ [x])
     have := (List.Perm.append_right (servedDyn s) g2)
     refine this.trans ?_
@@ -397,6 +399,9 @@ theorem Mid_install {s : St} {todo all : List Loc} (h : Mid s todo all) (x : Dyn
     rcases hnew j sl hj with e | ⟨e, _⟩
     · exact h.u3 j sl e hr
     · exact absurd hr e
+  · intro j hm
+    have hjl := h.u4 j hm
+    exact getElem?_lt (hold j _ (List.getElem?_eq_getElem hjl))
   · intro j hm
     obtain ⟨sl, h1, h2⟩ := h.t2 j hm
     exact ⟨sl, hold j sl h1, h2⟩
@@ -456,7 +461,7 @@ theorem Mid_serveOne_win {s : St} {rest all : List Loc} {k j : Nat} (h : Mid s (
     unfold St.serveL; rw [hslot]; simp [amSlot]
   have hm1 : Mid (s.serveL (.win k j)) (.win k j :: rest) all := by
     rw [hs1]
-    refine ⟨h.pools, h.dyn, h.ok, ?_, h.nodup, h.u1, h.u2, h.u3, h.t1, h.t2, h.t3⟩
+    refine ⟨h.pools, h.dyn, h.ok, ?_, h.nodup, h.u1, h.u2, h.u3, h.u4, h.t1, h.t2, h.t3⟩
     show (s.dyn.refs ++ servedDyn { s with served := s.served ++ [.am p.id r] }).Perm s.issued
     have : servedDyn { s with served := s.served ++ [.am p.id r] } = servedDyn s := by
       simp [servedDyn, List.filterMap_append, Ref.dynOf]
@@ -486,7 +491,7 @@ theorem Mid_serveOne_win {s : St} {rest all : List Loc} {k j : Nat} (h : Mid s (
     ⟨by show (s2.pools.set k q).map Pool.shape = _
         rw [map_shape_set _ _ _ _ hk2 e_sh, pl2, hpools1], st2.base.trans (by rw [hdyn1]), st2.cap.trans (by rw [hdyn1]),
       st2.quota.trans (by rw [hdyn1])⟩
-  refine ⟨⟨?_, m2.dyn, ?_, m2.ledger, m2.nodup, ?_, ?_, m2.u3, ?_, ?_, ?_⟩, hst, iss2.trans (by rw [hiss1]),
+  refine ⟨⟨?_, m2.dyn, ?_, m2.ledger, m2.nodup, ?_, ?_, m2.u3, m2.u4, ?_, ?_, ?_⟩, hst, iss2.trans (by rw [hiss1]),
     ⟨p, r, hk, sv2.trans hsv1⟩⟩
   · intro k' p' hk'
     rcases getElem?_set_cases _ _ _ _ _ hk' with ⟨_, e, _⟩ | ⟨_, e⟩
@@ -557,7 +562,7 @@ theorem Mid_serveOne_dyn {s : St} {rest all : List Loc} {j : Nat} (h : Mid s (.d
     rw [this]; simp only [hcb]
   have hm1 : Mid (s.serveL (.dyn j)) rest all := by
     rw [hs1]
-    refine ⟨h.pools, g1, h.ok, ?_, h.nodup, ?_, ?_, ?_, ?_, ?_, ?_⟩
+    refine ⟨h.pools, g1, h.ok, ?_, h.nodup, ?_, ?_, ?_, fun j' hm => by show j' < (s.dyn.serve j).slots.length; rw [g3]; exact h.u4 j' hm, ?_, ?_, ?_⟩
     · show ((s.dyn.serve j).refs ++ servedDyn { s with dyn := s.dyn.serve j, served := s.served ++ [.dyn x] }).Perm s.issued
       have e : servedDyn { s with dyn := s.dyn.serve j, served := s.served ++ [.dyn x] } = servedDyn s ++ [x] := by
         simp [servedDyn, List.filterMap_append, Ref.dynOf]
@@ -695,7 +700,11 @@ theorem Mid_finish {s : St} {all : List Loc} (h : Mid s [] all) (hasc : (dynOffs
     exact h.u3 i sl hi hr
   have hpw : (dynOffs all).reverse.Pairwise (fun a b => a > b) := by
     rw [List.pairwise_reverse]; exact hasc
-  obtain ⟨r1, r2, r3, r4, r5, r6, r7⟩ := DInv_removeAll _ s.dyn h.dyn hfin hpw hholes
+  have hlen : ∀ j, j ∈ (dynOffs all).reverse → j < s.dyn.slots.length := by
+    intro j hj
+    rw [List.mem_reverse, mem_dynOffs] at hj
+    exact h.u4 j hj
+  obtain ⟨r1, r2, r3, r4, r5, r6, r7⟩ := DInv_removeAll _ s.dyn h.dyn hfin hpw hholes hlen
   obtain ⟨f1, f2, f3, f4, f5, ⟨a, b, f6, f7⟩, f8⟩ := DInv_feed s.dyn.cap _ r1
   refine ⟨⟨?_, f1, h.ok, ?_, h.nodup⟩, ⟨?_, f3.trans r3, f4.trans r4, f5.trans r5⟩, rfl, rfl, ?_, ⟨a, b, ?_, ?_⟩⟩
   · intro k p' hk
@@ -764,7 +773,7 @@ theorem Inv_iterL {s : St} (h : Inv s) (c : List (Loc × List Dyn))
     (hfn : (c.flatMap (·.2)).Nodup) (hf : ∀ x, x ∈ c.flatMap (·.2) → x ∉ s.issued) :
     Inv (s.iterL c) ∧ Static s (s.iterL c) ∧ (s.iterL c).issued = s.issued ++ c.flatMap (·.2) ∧
     (∃ rs, rs.length = c.length ∧ (s.iterL c).served = s.served ++ rs) ∧ ¬ (s.iterL c).dyn.starved := by
-  obtain ⟨t1, t2⟩ := Mid_test (c.map (·.1)) s [] (c.map (·.1)) (h.toMid _) (fun l hl => hl) hnd
+  obtain ⟨t1, t2⟩ := Mid_test (c.map (·.1)) s [] (c.map (·.1)) (h.toMid _ (fun j hj => (hrep (Loc.dyn j) hj : Reportable s (Loc.dyn j)))) (fun l hl => hl) hnd
     (fun l hl => h.live (hrep l hl))
   rw [List.append_nil] at t1
   obtain ⟨hiss1, hsv1⟩ := completes_frame (c.map (·.1)) s
@@ -779,7 +788,7 @@ theorem Inv_iterL {s : St} (h : Inv s) (c : List (Loc × List Dyn))
 /-- Creation of a request between passes (put / get from the upper layer). -/
 theorem Inv_install {s : St} (h : Inv s) (x : Dyn) (hx : x ∉ s.issued) :
     Inv (s.install x) ∧ Static s (s.install x) ∧ (s.install x).issued = s.issued ++ [x] ∧ (s.install x).served = s.served := by
-  obtain ⟨g1, g2, g3, g4⟩ := Mid_install (h.toMid []) x hx
+  obtain ⟨g1, g2, g3, g4⟩ := Mid_install (h.toMid [] (by simp)) x hx
   refine ⟨g1.toInv h.pools ?_, g2, g3, g4⟩
   intro sl hsl hr
   obtain ⟨j, hj⟩ := List.getElem?_of_mem hsl
